@@ -1083,6 +1083,16 @@ func builtinSlice(i *Interpreter, args []Expr, env *Environment) (interface{}, e
 	return result, nil
 }
 
+// checkStatusCode rejects status codes net/http cannot send. WriteHeader panics
+// on anything outside 100-999, and a panic in the handler drops the connection,
+// so an out-of-range code has to fail here as an ordinary GlyphLang error.
+func checkStatusCode(fn string, code int) error {
+	if code < 100 || code > 599 {
+		return fmt.Errorf("%s() status code must be between 100 and 599, got %d", fn, code)
+	}
+	return nil
+}
+
 func builtinText(interp *Interpreter, args []Expr, env *Environment) (interface{}, error) {
 	if len(args) < 1 || len(args) > 2 {
 		return nil, fmt.Errorf("text() requires 1-2 arguments: text(body) or text(body, statusCode)")
@@ -1111,6 +1121,9 @@ func builtinText(interp *Interpreter, args []Expr, env *Environment) (interface{
 		default:
 			return nil, fmt.Errorf("text() second argument must be an integer status code, got %T", codeVal)
 		}
+	}
+	if err := checkStatusCode("text", statusCode); err != nil {
+		return nil, err
 	}
 	return &TextResponse{Body: bodyStr, StatusCode: statusCode}, nil
 }
@@ -1143,6 +1156,9 @@ func builtinHTML(interp *Interpreter, args []Expr, env *Environment) (interface{
 		default:
 			return nil, fmt.Errorf("html() second argument must be an integer status code, got %T", codeVal)
 		}
+	}
+	if err := checkStatusCode("html", statusCode); err != nil {
+		return nil, err
 	}
 	return &HTMLResponse{Body: bodyStr, StatusCode: statusCode}, nil
 }
@@ -1191,6 +1207,9 @@ func builtinBlob(interp *Interpreter, args []Expr, env *Environment) (interface{
 		default:
 			return nil, fmt.Errorf("blob() third argument must be an integer status code, got %T", codeVal)
 		}
+	}
+	if err := checkStatusCode("blob", statusCode); err != nil {
+		return nil, err
 	}
 	return &BlobResponse{Data: data, ContentType: contentType, StatusCode: statusCode}, nil
 }
